@@ -33,7 +33,7 @@ NewCtxCall == \E bs \in BatchSizes, seed \in Seeds, rs \in RandomSeeds, p \in 0.
      /\ given' = IF ok THEN Append(given, bs) ELSE given
      /\ loaded' = IF ok THEN Append(loaded, <<>>) ELSE loaded
   /\ UNCHANGED hist
-NewPoolCall == Len(cx.pools) < MaxPools /\ Step([B0 EXCEPT !.op = "newpool"]) /\ UNCHANGED <<given, loaded, hist>>
+NewPoolCall == /\ Len(cx.pools) < MaxPools /\ Step([B0 EXCEPT !.op = "newpool"]) /\ UNCHANGED <<given, loaded, hist>>
 NewHandlerCall == \E c \in 1..Len(cx.ctxs) :
   /\ Len(cx.hds) < MaxHandlers /\ Step([B0 EXCEPT !.op = "handler", !.ctx = c]) /\ hist' = Append(hist, <<>>) /\ UNCHANGED <<given, loaded>>
 SubmitCall == \E h \in 1..Len(cx.hds) :
@@ -46,7 +46,8 @@ WaitCall == \E h \in 1..Len(cx.hds) : Step([B0 EXCEPT !.op = "wait", !.hd = h]) 
 CancelCall == \E h \in 1..Len(cx.hds) : Step([B0 EXCEPT !.op = "cancel", !.hd = h]) /\ UNCHANGED <<given, loaded, hist>>
 ResetCall == \E h \in 1..Len(cx.hds) : Step([B0 EXCEPT !.op = "reset", !.hd = h]) /\ UNCHANGED <<given, loaded, hist>>
 ComputeCall == \E h \in 1..Len(cx.hds), bi \in 0..2 : Step([B0 EXCEPT !.op = "compute", !.hd = h, !.bi = bi]) /\ UNCHANGED <<given, loaded, hist>>
-GenerateCall == \E seed \in Seeds \ {-2} : Step([B0 EXCEPT !.op = "generate", !.seed = seed]) /\ UNCHANGED <<given, loaded, hist>>
+\* (the domain mentions the state only so that TLC keeps this one action instead of splitting it per constant)
+GenerateCall == \E seed \in {s \in Seeds \ {-2} : nops >= 0} : Step([B0 EXCEPT !.op = "generate", !.seed = seed]) /\ UNCHANGED <<given, loaded, hist>>
 
 Next == \/ NewCtxCall \/ NewPoolCall \/ NewHandlerCall \/ SubmitCall \/ WaitCall \/ CancelCall \/ ResetCall \/ ComputeCall \/ GenerateCall
 Spec == Init /\ [][Next]_cvars
